@@ -8,6 +8,7 @@ import CnvVerif.Driver.Fix
 import CnvVerif.Driver.Access
 import CnvVerif.Driver.Genes
 import CnvVerif.Driver.Formats
+import CnvVerif.Driver.FormatsExt
 import CnvVerif.Driver.Export
 import CnvVerif.Driver.Reference
 import CnvVerif.Driver.Coverage
@@ -20,7 +21,7 @@ import CnvVerif.Driver.Stats
 open Lean CnvVerif.Drv
 
 def handlers : List (String → Json → Option Json → R (Option Json)) :=
-  [handleInterval, handleCall, handleSegFilter, handleTile, handleCenter, handleFix, handleAccess, Genes.handleGenes, handleFormats, handleExport, Reference.handleReference, handleCoverage, handleEffects, handleBins, handleVcf, handleDescriptives, Haar.handleHaar, handleStats]
+  [handleInterval, handleCall, handleSegFilter, handleTile, handleCenter, handleFix, handleAccess, Genes.handleGenes, handleFormats, handleFormatsExt, handleExport, Reference.handleReference, handleCoverage, handleEffects, handleBins, handleVcf, handleDescriptives, Haar.handleHaar, handleStats]
 
 def dispatch (op : String) (inp : Json) (impl : Option Json) : R Json := do
   for h in handlers do
